@@ -11,7 +11,12 @@ use proptest::prelude::*;
 use std::path::PathBuf;
 
 // ---------- sub "ledger": plain histories, oracle = no panic (also replays R2/R4/F-05e minimal inputs) ----------
-fn ledger_strategy_c05(tier: Tier) -> BoxedStrategy<LedgerCase> { let mut p = GenParams::ledger(); p.max_rows = tier.pick(14, 30); ledger_strategy(p, 1) }
+fn ledger_strategy_c05(tier: Tier) -> BoxedStrategy<LedgerCase> {
+    let mut p = GenParams::ledger(); p.max_rows = tier.pick(14, 30);
+    // a quarter of the inputs are long (21-45 rows, shuffled file order): sorting more than 20 rows runs other code, with other demands on the ordering
+    let mut long = p.clone(); long.max_rows = 45;
+    prop_oneof![3 => ledger_strategy(p, 1), 1 => ledger_strategy(long, 21)].boxed()
+}
 fn check_ledger(case: &LedgerCase, obs: &mut Obs) -> Verdict {
     let files = case.files();
     for (full, costs) in [(false, false), (true, true)] {
